@@ -20,7 +20,12 @@ import (
 func hC13Module() (*Module, *Func) {
 	m := NewModule()
 	m.NewGlobalDef(hLetter("g"), constant.NewInt(types.I32, 1))
-	m.NewGlobalDef("", constant.NewInt(types.I32, 2))
+	// which unnamed entity is @0: an unnamed global variable, or (no unnamed
+	// variable) an unnamed function defined below
+	unnamedFuncFirst := vfChoice("unnamed-function-is-@0", 2) == 1
+	if !unnamedFuncFirst {
+		m.NewGlobalDef("", constant.NewInt(types.I32, 2))
+	}
 	// types that no earlier print in the process has seen (an uncommon integer
 	// width, an array and a vector of it, a named struct, an address space):
 	// whatever the printers memoise for them is shared state
@@ -62,6 +67,10 @@ func hC13Module() (*Module, *Func) {
 	m.NamedMetadataDefs["a"] = &metadata.NamedDef{Name: "a", Nodes: []metadata.Node{md5}}
 	late.AddrSpace = 4
 	lf.AddrSpace = 2
+	if unnamedFuncFirst {
+		uf := m.NewFunc("", types.Void)
+		uf.NewBlock("").NewRet(nil)
+	}
 	if vfTier() > 0 {
 		m.NewAlias("", m.Globals[0])
 		g := m.NewFunc("", types.Void)
